@@ -41,6 +41,18 @@ CHECKS = {
    technique="hostile-input grammar derived from the TLA+ layout (Wire9P.Encode reports offset/width of every length and count field); real decoder run on every mutated input under recover with allocation measurement and re-encode stability check",
    text="For every spec vector the positions of all length/count fields come from the specification; each is replaced by boundary values, inputs are truncated at every point, extended, given illegal type bytes and combined (seeded); every input is decoded as a message and as a directory entry. Oracles are the three clauses of the property: no panic, TotalAlloc delta <= 4 MiB + 64 B per input byte, decode(encode(v)) == v on success. Exploration (tens of thousands of structured inputs), not a proof over all byte strings.",
    note="Trusted: allocation measurement via runtime.MemStats in a single goroutine. The family is structured (grammar-derived) plus 2000 random strings; it is not all byte strings up to msize."),
+ "C02": dict(engine="chan", cat="exploration", ref="5 C02",
+   technique="TLA+ model of channel writes (ChanWrite.tla) checked exhaustively by TLC on a scaled instance; its outcome function WOut evaluated by TLC on concrete (message, msize, context) tuples and compared with the bytes the real WriteFcall puts on a capturing connection",
+   text="TLC proves on the scaled instance (msize 24..40, sizes up to 60, two writes and SetMSize per channel, 2.9 M states) that every emitted frame fits, shortened writes are exactly msize with a data prefix, lowered read counts make the reply fit and errors write nothing. For the real code TLC computes the expected outcome for each C01 vector (plus synthetic write sizes and read counts up to 2^32-1) at every msize within +-40/120 bytes of the message's frame size and at 24/65536/2^20, live and cancelled; the harness compares the exact frame bytes (Wire9P encoding of the shortened message) or requires zero bytes plus the exact excess, and that the caller's buffers are untouched.",
+   note="Trusted: ChanWrite.tla as the reading of the property; Wire9P encodings as expected frames. msize is swept near each message's size and at anchors, not over all of [24, 2^20]; counts >= 2^31 are one symbolic class."),
+ "C03": dict(engine="chan", cat="model_checking", ref="5 C03",
+   technique="TLA+ model of frame reading (ChanRead.tla): TLC enumerates every sequence of <=3/4 frame classes with the prescribed outcome per read; each is concretised and replayed through the real ReadFcall over a scripted chunking connection",
+   text="The spec fixes, per frame class (valid of any kind, read request to be clamped, exact fit, oversize by k, undecodable, inner length beyond body, body short by k, impossible prefix 0..4, stream cut), what a read must yield and that later frames are unaffected. TLC enumerates all sequences; the harness builds the byte streams relative to 3 msize values, feeds them in 4 chunkings and compares every ReadFcall result (decoded message equality, exact overflow, error and no panic). Frame isolation is tested because each class appears after every other class.",
+   note="Trusted: the concretisation of classes in the harness (engines/chanr.go). Bounded: <=4 frames per stream, 3 msize values."),
+ "C10": dict(engine="chan", cat="model_checking", ref="5 C10",
+   technique="TLA+ model of the version handshake (Negotiate.tla) checked exhaustively on a scaled instance; decisions NegServer / NegClient evaluated by TLC at the real parameters and compared with the real ServeConn and CSession, followed by maximal-size traffic with every frame tapped",
+   text="TLC checks for all offers 0..63 against a server maximum of 40 that the server never answers more than proposed or than its maximum, the client never adopts more than it proposed, both agree against an honest peer and nothing is dispatched before acceptance. At the real parameters TLC computes the expected answer / adopted msize for a boundary-dense list; the harness negotiates with the real server (every first-message kind, 4 version strings) and the real client, then checks exact-msize frames are accepted, msize+1 refused, read counts lowered, 1 MiB writes leave as exactly msize, and no tapped frame exceeds the agreed msize.",
+   note="Trusted: Negotiate.tla; frame tap on the in-memory connection. The man-in-the-middle variant (both real ends at small msize) is not built; small msizes are reached on each side separately."),
 }
 
 NA_REASON = "check not built yet in this round; planned per DESIGN.md section 5 (specification exists or is planned, no verdict is claimed)"
